@@ -13,6 +13,7 @@ LEVEL = "proof"
 COQ_FILES = ["Tie/C15_defs.v", "Tie/C15_tie.v", "Props/C15_props.v"]
 PROPS_FILES = ["C15_props.v"]
 TRUSTED_BASE = [
+    "vlib/symex.py (symbolic execution of the translated Python subset on the ast: the translator reads value / outcome trees, so local names, intermediates, helpers and the form of branches do not matter; its assumptions - pure expressions, opaque calls, no aliasing writes, try handlers not modelled - are listed in DESIGN.md 12.7; fail-closed)",
     "py2gallina unit 'checkpoint' (Checkpointer.save -> file-system effect trace; resume start / kill-path label / regular label / save guard arithmetic from engine.py)",
     "crash model coq/Model/C15.v: the process dies between effects or inside a write (file left unparsable); os.replace is atomic; no power-loss / fsync model",
     "hand model of Checkpointer.load('latest') (pointer -> iteration -> checkpoint file), tied by fault-injection correspondence: the real save is aborted at every effect and the real load classified",
